@@ -74,6 +74,17 @@ def import_networking():
         import skepticoin.networking.manager  # noqa
         import skepticoin.networking.remote_peer  # noqa
         import skepticoin.networking.disk_interface  # noqa
+    _sync_checkpoint_table()
+
+
+def _sync_checkpoint_table():
+    """modules that bind the checkpoint table by name at import (the relay / bulk-download handler) see the same table as
+    consensus does under the current test configuration"""
+    import sys
+    C = sys.modules.get("skepticoin.consensus")
+    rp = sys.modules.get("skepticoin.networking.remote_peer")
+    if C is not None and rp is not None and hasattr(rp, "KNOWN_HASHES") and hasattr(C, "KNOWN_HASHES"):
+        rp.KNOWN_HASHES = C.KNOWN_HASHES
 
 
 def _need(mod, name):
@@ -99,6 +110,7 @@ def use_fast_pow(horizon=-1):
     C.scrypt = fast_scrypt
     C.MAX_KNOWN_HASH_HEIGHT = horizon
     C.KNOWN_HASHES = {} if horizon < 0 else _real[("C", "KNOWN_HASHES")]
+    _sync_checkpoint_table()
 
 
 def use_real_pow():
@@ -106,6 +118,7 @@ def use_real_pow():
     for (m, n), v in list(_real.items()):
         if m == "C":
             setattr(C, n, v)
+    _sync_checkpoint_table()
 
 
 def set_retarget(period=None, timespan=None):
